@@ -1716,7 +1716,9 @@ impl<'a> Runtime<'a> {
             return Value::Str(ArenaCow::Owned(result));
         }
 
-        if matches!(val, Value::Array(_)) {
+        // Arrays and host values (process commands/results) created by the callee live
+        // on its frame; they are copied out before the frame is reset.
+        if matches!(val, Value::Array(_) | Value::Host(_)) {
             #[cfg(feature = "verif")]
             crate::verif::bump(crate::verif::Counter::RelocateArray);
             // Arrays promoted to persistent via pool.
